@@ -243,7 +243,7 @@ def handle (op : String) (args : List String) (impl : String) : String :=
     match bytesOfHex h with
     | some _ => answer "ok" (if isPanicObs impl then "fails:" ++ clsBuilderPanic else "holds") "meta"
     | none => badReq "hex"
-  | "wfile", _ => RpmVerif.Driver.WithFile.handle false args impl
+  | "wfile17", _ => RpmVerif.Driver.WithFile.handle false args impl
   | "layout", [l] =>
     -- several destinations in one package: `build()` succeeds iff every destination can be split (add_data),
     -- whatever the shape of the tree; never a panic
@@ -255,6 +255,6 @@ def handle (op : String) (args : List String) (impl : String) : String :=
     | none => badReq "hex"
   | _, _ => badReq "op"
 
-def ops : List String := ["wfile", "layout", "dest", "pcomps", "pparent", "pfilename", "pstrip", "pjoin", "level", "levelnb", "leveld", "leveldnb", "tsset", "capsset", "meta"]
+def ops : List String := ["wfile17", "layout", "dest", "pcomps", "pparent", "pfilename", "pstrip", "pjoin", "level", "levelnb", "leveld", "leveldnb", "tsset", "capsset", "meta"]
 
 end RpmVerif.Driver.C17
